@@ -38,6 +38,7 @@ type c03Rule struct {
 	Target []ref.Matcher `json:"target"`
 	Equal  []string      `json:"equal"`
 	Legacy bool          `json:"legacy,omitempty"` // written as source_match / source_match_re / target_match / target_match_re when expressible
+	Name   string        `json:"name,omitempty"`   // the optional rule name (names need not be unique)
 }
 
 type c03Op struct {
@@ -117,6 +118,7 @@ func genC03(t *rapid.T) c03Scenario {
 		}
 		// one rule in four is written in the deprecated source_match(_re) / target_match(_re) spelling when it can be
 		r.Legacy = rapid.IntRange(0, 3).Draw(t, "legacy") == 0
+		r.Name = rapid.SampledFrom([]string{"", "", "outage", "outage", "other"}).Draw(t, "name")
 		sc.Rules = append(sc.Rules, r)
 	}
 	sc.GCSec = rapid.SampledFrom([]int{60, 300, 1800}).Draw(t, "gc")
@@ -230,6 +232,7 @@ func execC03(sc c03Scenario) (res pbt.Result) {
 	for _, r := range sc.Rules {
 		if r.Legacy {
 			if lr, ok := c03LegacyRule(r); ok {
+				lr.Name = r.Name
 				rules = append(rules, lr)
 				res.Class("legacy-rule-spelling")
 				continue
@@ -241,7 +244,7 @@ func execC03(sc c03Scenario) (res pbt.Result) {
 			res.Fail("generator", "matchers: %v %v", err1, err2)
 			return res
 		}
-		rules = append(rules, amcommoncfg.InhibitRule{SourceMatchers: amcommoncfg.Matchers(src), TargetMatchers: amcommoncfg.Matchers(tgt), Equal: r.Equal})
+		rules = append(rules, amcommoncfg.InhibitRule{Name: r.Name, SourceMatchers: amcommoncfg.Matchers(src), TargetMatchers: amcommoncfg.Matchers(tgt), Equal: r.Equal})
 	}
 	flips, sharedEqual, updatesOfShared, lateArrivals := 0, false, 0, 0
 	synctest.Test(pbt.T(), func(*testing.T) {
